@@ -158,6 +158,10 @@ func runC18(h *H) {
 					p.Send(idleTag + " OK done\r\n")
 				case c.Name == "CAPABILITY":
 					p.Send("* CAPABILITY " + cfg.Caps + "\r\n" + c.Tag + " OK done\r\n")
+				case c.Name == "LOGIN":
+					// keep the capability set stable (a LOGIN OK without the code makes the client
+					// forget it and ask again, which would make its choices timing dependent)
+					p.Send(c.Tag + " OK [CAPABILITY " + cfg.Caps + "] done\r\n")
 				case c.Name == "SEARCH":
 					p.Send("* SEARCH\r\n" + c.Tag + " OK done\r\n")
 				default:
